@@ -752,6 +752,9 @@ def b_len(ip, args, kwargs, node):
         return shape_len(ip, x, node)
     if isinstance(x, Const) and isinstance(x.v, str):
         return const_num(len(x.v))
+    if isinstance(x, Num) and x.kind == 'scalar':
+        # a Python number or a 0-d array (np.loadtxt of a one-number file): len() of unsized object
+        raise Raised('TypeError', 'len() of unsized object', ip.loc(node))
     if isinstance(x, (Arr, View, Num)):
         t, k = ip.term_of(x, node)
         return Num(length_of(ip, t), 'scalar')
@@ -774,6 +777,7 @@ def length_of(ip, t):
                 kinds.add(a[1])
     if len(kinds) == 1:
         name = kinds.pop()
+        name = getattr(ip, 'len_alias', {}).get(name, name)      # arrays the world declares to live on one grid
         ip.sym_kind.setdefault('len(%s)' % name, 'scalar')
         N.declare_int('len(%s)' % name)
         return N.sym('len(%s)' % name)
@@ -903,6 +907,32 @@ def op_fn(kind, name):
             return ip.compare(name, args[0], args[1], node)
         return ip.binop(name, args[0], args[1], node)
     return g
+
+
+def np_size(ip, args, kwargs, node):
+    x = args[0]
+    if kwargs or len(args) > 1:
+        raise Unsupported('np.size with an axis', node)
+    if isinstance(x, Seq):
+        return const_num(len(x.items))
+    if isinstance(x, Num) and x.kind == 'scalar':
+        return const_num(1)           # numbers and 0-d arrays have one element
+    if isinstance(x, (Arr, View, Num)):
+        t, k = ip.term_of(x, node)
+        kinds = ip.lead_kinds(t)
+        if kinds <= {'curve', 'file'}:
+            return Num(length_of(ip, t), 'scalar')
+        raise Unsupported('np.size of a multi-dimensional array', node)
+    raise Unsupported('np.size of %r' % (x,), node)
+
+
+class _FInfo(object):
+    pass
+
+
+def np_finfo(ip, args, kwargs, node):
+    return Obj('finfo', {'eps': Num(ip.declare('machine_eps')), 'tiny': Num(ip.declare('float_tiny')),
+                         'max': Num(ip.declare('float_max')), 'min': Num(-ip.declare('float_max'))})
 
 
 def b_sum(ip, args, kwargs, node):
@@ -1046,31 +1076,103 @@ def b_getattr(ip, args, kwargs, node):
     raise Unsupported('getattr on %r' % (o,), node)
 
 
+SEQ_PY = {'list': ('list', 'Sequence'), 'tuple': ('tuple', 'Sequence'), 'range': ('range', 'Sequence'),
+          'ndarray': ('ndarray',), 'set': ('set', 'Set'), 'frozenset': ('frozenset', 'Set'), 'generator': ('generator', 'Iterator'),
+          'dict_keys': ('dict_keys', 'Set'), 'iterator': ('iterator', 'Iterator')}
+
+
+def python_types_of(ip, v):
+    """names of the Python types / ABCs the abstract value is an instance of (None: not known)"""
+    if isinstance(v, Const):
+        if isinstance(v.v, bool):
+            return {'bool', 'int', 'Hashable'}
+        if isinstance(v.v, str):
+            return {'str', 'Sequence', 'Iterable', 'Sized', 'Container', 'Collection', 'Reversible', 'Hashable'}
+        if isinstance(v.v, int):
+            return {'int', 'Hashable'}
+        if isinstance(v.v, float):
+            return {'float', 'Hashable'}
+        if v.v is None:
+            return {'NoneType', 'Hashable'}
+        if isinstance(v.v, tuple):
+            return {'tuple', 'Sequence', 'Iterable', 'Sized', 'Container', 'Collection', 'Reversible', 'Hashable'}
+        return None
+    if isinstance(v, Label):
+        return None               # a site-type label is any hashable: its type is not known
+    if isinstance(v, Seq):
+        names = set(SEQ_PY.get(v.kind, (v.kind,)))
+        names |= {'Iterable'}
+        if v.kind not in ('generator', 'iterator'):
+            names |= {'Sized', 'Container', 'Collection'}
+        if v.kind in ('list', 'tuple', 'range'):
+            names |= {'Reversible'}
+        if v.kind in ('tuple', 'frozenset', 'range'):
+            names |= {'Hashable'}
+        if v.kind == 'list':
+            names |= {'MutableSequence'}
+        return names
+    if isinstance(v, (Arr, View, Masked, Mask)):
+        st = getattr(v, 'seqtype', None)
+        if st:                    # a plain Python sequence of numbers (modelled as an array term)
+            return set(SEQ_PY[st]) | {'Iterable', 'Sized', 'Container', 'Collection', 'Reversible'}
+        return {'ndarray', 'Iterable', 'Sized', 'Container', 'Collection'}
+    if isinstance(v, Num):
+        if v.kind == 'array':
+            st = getattr(v, 'seqtype', None)
+            if st:
+                return set(SEQ_PY[st]) | {'Iterable', 'Sized', 'Container', 'Collection', 'Reversible'}
+            return {'ndarray', 'Iterable', 'Sized', 'Container', 'Collection'}
+        return {'float', 'int', 'Real', 'Number', 'Hashable'} if getattr(v, 'int_literal', False) else {'float', 'Real', 'Number', 'Hashable', '?int'}
+    if isinstance(v, Obj) and v.cls == 'dict':
+        return {'dict', 'Mapping', 'MutableMapping', 'Iterable', 'Sized', 'Container', 'Collection'}
+    return None
+
+
+_LIB_TYPES = {'builtins.str': 'str', 'builtins.list': 'list', 'builtins.tuple': 'tuple', 'builtins.int': 'int', 'builtins.float': 'float',
+              'builtins.bool': 'bool', 'builtins.set': 'set', 'builtins.frozenset': 'frozenset', 'builtins.dict': 'dict',
+              'builtins.range': 'range', 'numpy.ndarray': 'ndarray', 'numbers.Number': 'Number', 'numbers.Real': 'Real'}
+for _n in ('Sequence', 'Iterable', 'Sized', 'Container', 'Collection', 'Reversible', 'Hashable', 'Mapping', 'MutableMapping',
+           'MutableSequence', 'Set', 'Iterator'):
+    _LIB_TYPES['collections.abc.' + _n] = _n
+    _LIB_TYPES['collections.' + _n] = _n
+    _LIB_TYPES['typing.' + _n] = _n
+
+
 def b_isinstance(ip, args, kwargs, node):
     v, c = args
     cs = c.items if isinstance(c, Seq) else [c]
+    if isinstance(v, Unknown):
+        raise Unsupported('isinstance of unknown value', node)
+    pending = None
     for c1 in cs:
         if isinstance(c1, ClassRef):
             if isinstance(v, Obj) and isinstance(v.cls, type(c1.cls)) and v.cls.is_subclass_of(c1.cls):
                 return TRUE
         elif isinstance(c1, Lib):
-            if c1.name == 'builtins.str':
-                if isinstance(v, Const) and isinstance(v.v, str):
-                    return TRUE
-                if isinstance(v, Label):
-                    return TRUE      # type labels are strings in every shipped example
-            elif c1.name in ('builtins.list', 'builtins.tuple'):
-                if isinstance(v, Seq):
-                    return TRUE
-            elif c1.name in ('builtins.int', 'builtins.float'):
-                if isinstance(v, Num) and v.kind == 'scalar':
-                    return TRUE
-            else:
+            want = _LIB_TYPES.get(c1.name)
+            if want is None:
                 raise Unsupported('isinstance against %s' % c1.name, node)
+            if isinstance(v, Obj) and v.cls != 'dict':
+                continue          # an instance of a package class (or an opaque library object) is none of these
+            if isinstance(v, Label):
+                if want == 'str':
+                    return TRUE   # type labels are strings in every shipped example
+                if want == 'Hashable':
+                    return TRUE
+                pending = 'isinstance of a type label against %s' % c1.name
+                continue
+            have = python_types_of(ip, v)
+            if have is None:
+                pending = 'isinstance of %r against %s' % (v, c1.name)
+                continue
+            if want in have:
+                return TRUE
+            if want == 'int' and '?int' in have:
+                pending = 'whether a symbolic number is an int'
         else:
             raise Unsupported('isinstance against %r' % (c1,), node)
-    if isinstance(v, Unknown):
-        raise Unsupported('isinstance of unknown value', node)
+    if pending:
+        raise Unsupported(pending, node)
     return FALSE
 
 
@@ -1146,12 +1248,20 @@ def it_product(ip, args, kwargs, node):
     raise Unsupported('itertools.product of %r' % (args,), node)
 
 
+def take_items(x):
+    """the items an iteration over the sequence yields; a one-shot iterable (generator, iterator) is exhausted by it"""
+    items = list(x.items)
+    if x.kind in ('generator', 'iterator'):
+        x.items = []
+    return items
+
+
 def b_list(ip, args, kwargs, node):
     if not args:
         return Seq([], 'list')
     x = args[0]
     if isinstance(x, Seq):
-        return Seq(list(x.items), 'list')
+        return Seq(take_items(x), 'list')
     if isinstance(x, Types):
         return x
     if isinstance(x, Const) and isinstance(x.v, str):
@@ -1261,7 +1371,7 @@ CALLS = {
     'itertools.product': it_product, 'itertools.combinations': it_combinations(False),
     'itertools.combinations_with_replacement': it_combinations(True),
     'warnings.warn': w_warn,
-    'builtins.len': b_len, 'builtins.range': b_range, 'builtins.abs': b_abs, 'builtins.sum': b_sum, 'numpy.identity': np_identity, 'numpy.eye': np_identity,
+    'builtins.len': b_len, 'builtins.range': b_range, 'builtins.abs': b_abs, 'builtins.sum': b_sum, 'numpy.size': np_size, 'numpy.finfo': np_finfo, 'numpy.identity': np_identity, 'numpy.eye': np_identity,
     'operator.lt': op_fn('cmp', 'Lt'), 'operator.le': op_fn('cmp', 'LtE'), 'operator.gt': op_fn('cmp', 'Gt'), 'operator.ge': op_fn('cmp', 'GtE'),
     'operator.eq': op_fn('cmp', 'Eq'), 'operator.ne': op_fn('cmp', 'NotEq'), 'operator.add': op_fn('bin', 'Add'), 'operator.sub': op_fn('bin', 'Sub'),
     'operator.mul': op_fn('bin', 'Mult'), 'operator.truediv': op_fn('bin', 'Div'), 'builtins.max': b_minmax('max'), 'builtins.min': b_minmax('min'),
